@@ -2012,7 +2012,68 @@ func (r *FnRun) bindResults(env *Env, o *Outcome) {
 }
 
 // identifiers of local variables visible in loop invariants
+// DeclaredLocals lists the names a function body declares (:=, var, range), in
+// source order, duplicates kept.
+func DeclaredLocals(fn *ssa.Function) []string {
+	var out []string
+	syn := fn.Syntax()
+	if syn == nil {
+		return nil
+	}
+	add := func(e ast.Expr) {
+		if id, ok := e.(*ast.Ident); ok && id.Name != "_" {
+			out = append(out, id.Name)
+		}
+	}
+	ast.Inspect(syn, func(n ast.Node) bool {
+		switch x := n.(type) {
+		case *ast.FuncLit:
+			return n == syn // closures have their own contracts
+		case *ast.AssignStmt:
+			if x.Tok == token.DEFINE {
+				for _, l := range x.Lhs {
+					add(l)
+				}
+			}
+		case *ast.ValueSpec:
+			for _, nm := range x.Names {
+				add(nm)
+			}
+		case *ast.RangeStmt:
+			if x.Tok == token.DEFINE {
+				if x.Key != nil {
+					add(x.Key)
+				}
+				if x.Value != nil {
+					add(x.Value)
+				}
+			}
+		}
+		return true
+	})
+	return out
+}
+
 func (r *FnRun) lookupLocal(st *State, at *ssa.BasicBlock, name string) (Val, types.Type, bool) {
+	if v, t, ok := r.lookupLocal0(st, at, name); ok {
+		return v, t, true
+	}
+	// renamed local: same position in the declaration order as at authoring time
+	if r.C != nil && len(r.C.Locals) > 0 && r.Fn != nil {
+		now := DeclaredLocals(r.Fn)
+		for i, n := range r.C.Locals {
+			if n == name && i < len(now) && now[i] != name {
+				if v, t, ok := r.lookupLocal0(st, at, now[i]); ok {
+					r.E.Notes["local variable "+name+" of the contract of "+r.FnName+" is called "+now[i]+" in the working tree (bound by declaration order)"] = true
+					return v, t, true
+				}
+			}
+		}
+	}
+	return nil, nil, false
+}
+
+func (r *FnRun) lookupLocal0(st *State, at *ssa.BasicBlock, name string) (Val, types.Type, bool) {
 	// 1. phi at this block
 	if at != nil {
 		for b := at; b != nil; b = b.Idom() {
@@ -2141,5 +2202,9 @@ func (r *FnRun) infeasible(st *State) bool {
 	g := &Goal{Run: r}
 	q := RenderQuery(r.E.Specs.Prelude, st.log[:len(st.log):len(st.log)], False, lazyDecls(g))
 	res := ReplaySolver.SolveQuick(r.FnName+"/prune", q)
+	if res.Status != "unsat" && res.Status != "sat" {
+		// undecided within the short limit (machine under load): the full portfolio decides
+		res = ReplaySolver.Solve(r.FnName+"/prune", q)
+	}
 	return res.Status == "unsat"
 }
